@@ -97,3 +97,51 @@ pub fn max_free(e: &E, depth: usize) -> Option<usize> {
         E::If(c, t, f) => max_free(c, depth).max(max_free(t, depth)).max(max_free(f, depth)),
     }
 }
+
+// Wrap up to `count` hole-free subterms in *solved* holes: `Hole(id, s, Some(c))` with c = the
+// subterm lowered by s denotes exactly that subterm (a hole written s binders further out and
+// solved since). Every operation must treat the result like the original term. `extra_depth` is
+// the number of binders around the root (a context): they may be crossed by the shift as well.
+pub fn wrap_solved(e: &E, r: &mut Rng, count: usize, first_id: u32, extra_depth: usize) -> E {
+    fn go(e: &E, target: usize, k: &mut usize, depth: usize, done: &mut bool, mk: &mut dyn FnMut(&E, usize) -> Option<E>) -> E {
+        let here = *k == target;
+        *k += 1;
+        if here && !*done {
+            if let Some(x) = mk(e, depth) {
+                *done = true;
+                return x;
+            }
+        }
+        match e {
+            E::Hole(..) => e.clone(),
+            other => other.map_children(&mut |c, binders| go(c, target, k, depth + binders, done, mk)),
+        }
+    }
+    let mut out = e.clone();
+    for i in 0..count {
+        let n = out.size();
+        let target = r.usize(n);
+        let want = r.usize(4);
+        let id = first_id + i as u32;
+        let mut done = false;
+        let next = go(&out, target, &mut 0, extra_depth, &mut done, &mut |sub, depth| {
+            if sub.has_hole() {
+                return None;
+            }
+            let mut s = want.min(depth);
+            loop {
+                if let Some(low) = crate::eterm::e_shift(sub, 0, -(s as i64)) {
+                    return Some(E::Hole(id, s, Some(bx(low))));
+                }
+                if s == 0 {
+                    return None;
+                }
+                s -= 1;
+            }
+        });
+        if done {
+            out = next;
+        }
+    }
+    out
+}
